@@ -381,9 +381,32 @@ def b_range(I, args, kw):
     return SymSeq("range", n, lambda i: SV(lo_e + i, "int"), kind="range")
 
 
+class EnumIter:
+    """enumerate(<iterator under contract>, start): (start + number of elements taken so far, next element)"""
+
+    def __init__(self, it, start):
+        self.it, self.start, self.taken = it, start, 0
+
+    def truth(self, I):
+        return True
+
+    def sym_next(self, I, default=None):
+        x = self.it.sym_next(I, default)
+        idx = I.binop(ast.Add(), self.start, self.taken) if not (isinstance(self.start, int) and isinstance(self.taken, int)) else self.start + self.taken
+        # the number already taken is the iterator's own count when it keeps one (its loop contract havocs it)
+        cnt = getattr(self.it, "count", None)
+        if cnt is not None:
+            idx = SV(I._num(self.start, "int") + cnt - 1, "int")
+        else:
+            self.taken += 1
+        return (idx, x)
+
+
 def b_enumerate(I, args, kw):
     start = kw.get("start", args[1] if len(args) > 1 else 0)
     it = args[0]
+    if hasattr(it, "sym_next") and not isinstance(it, (SymSeq, StreamV)):
+        return EnumIter(it, start)
     if isinstance(it, StreamV):
         return StreamV(f"enumerate({it.name})", lambda I_, i, it=it, start=start: (SV(i.e + start, "int"), it.next_elem(I_, i)))
     if isinstance(it, SymSeq):
